@@ -122,19 +122,34 @@ def apply_pt(m: Matrix, p: Tuple[F, F]) -> Tuple[F, F]:
 
 
 class FontModel:
-    def __init__(self, resname: str, fontname: str, first: int, widths: List[int], missing: int, descent: int) -> None:
+    """A simple font (one-byte codes, /Widths from /FirstChar, /MissingWidth) or, with cid_widths given, a composite
+    font with the Identity-H encoding (two-byte codes = CIDs, /W and /DW)."""
+
+    def __init__(self, resname: str, fontname: str, first: int, widths: List[int], missing: int, descent: int,
+                 cid_widths: Optional[Dict[int, int]] = None, dw: int = 1000) -> None:
         self.resname = resname
         self.fontname = fontname
         self.first = first
         self.widths = widths
         self.missing = missing
         self.descent = descent
+        self.multibyte = cid_widths is not None
+        self.cid_widths = cid_widths or {}
+        self.dw = dw
 
     def w0(self, code: int) -> F:
+        if self.multibyte:
+            return F(self.cid_widths.get(code, self.dw)) / 1000
         i = code - self.first
         if 0 <= i < len(self.widths):
             return F(self.widths[i]) / 1000
         return F(self.missing) / 1000
+
+    def codes(self, s: bytes) -> List[int]:
+        """Split a shown string into character codes (ISO 32000-1 9.7.6.2 for Identity-H: two bytes each)."""
+        if self.multibyte:
+            return [(s[i] << 8) | s[i + 1] for i in range(0, len(s) - 1, 2)]
+        return list(s)
 
 
 class GState:
@@ -191,7 +206,8 @@ class TextModel:
 
     # ------------------------------------------------------------------
     def _show(self, gs: GState, s: bytes, depth: int) -> None:
-        for code in s:
+        multibyte = isinstance(gs.font, FontModel) and gs.font.multibyte
+        for code in (gs.font.codes(s) if isinstance(gs.font, FontModel) else list(s)):
             g = Glyph()
             g.code = code
             g.font = gs.font
@@ -208,7 +224,8 @@ class TextModel:
             g.index = len(self.glyphs)
             self.glyphs.append(g)
             if known:
-                tx = (w0 * gs.Tfs + gs.Tc + (gs.Tw if code == 32 else 0)) * gs.Th
+                # word spacing applies to the single-byte code 32 only (9.3.3), never to a two-byte code
+                tx = (w0 * gs.Tfs + gs.Tc + (gs.Tw if (code == 32 and not multibyte) else 0)) * gs.Th
                 gs.Tm = mul(translate(tx, F(0)), gs.Tm)
             else:
                 gs.pen_known = False
